@@ -4,7 +4,7 @@ from __future__ import annotations
 import time, traceback
 import z3
 from .symexec import Interp, Unsupported, Obligation, SAdt
-from .interp2 import Interp2
+from .interp3 import Interp3 as Interp2
 from .speceval import Val, SpecError
 from .calls import spec_bool, spec_term
 from .vc import discharge, Verdict
@@ -89,11 +89,13 @@ def contract_obligations(I, c, lemma_fn=None):
     r = s.check()
     I.obligations.append(Obligation(f"V:{short}:requires-satisfiable", [], z3.BoolVal(r != z3.unsat), c.name, "V",
                                     "vacuity guard: the precondition admits at least one input"))
-    paths = I.run_function(c.name, args, pre)
+    paths = I.run_function(c.body_name(I.src), args, pre)
     if not paths:
         raise Unsupported("no feasible path")
     obs = list(I.obligations)
     I.obligations = []
+    I.fn_qual = c.body_name(I.src)
+    I.module = I.src.split(I.fn_qual)[0]
     for pi, p in enumerate(paths):
       with I.at_path(p):
           tag = f"R:{short}:path{pi}"
@@ -133,4 +135,5 @@ def contract_obligations(I, c, lemma_fn=None):
                       obs.append(Obligation(f"{tag}.unchanged-on-raise[{m}]", p.pc, got.v == env[m].v, where, "R", f"`{m}` is unchanged when {p.value.name} is raised"))
                   except Unsupported as ex:
                       obs.append(Obligation(f"{tag}.unchanged-on-raise[{m}]", p.pc, z3.BoolVal(False), where, "R", str(ex)))
+    obs.extend(I.obligations)
     return obs
